@@ -67,6 +67,11 @@ def opMatch (j : Json) : R Json := do
   let data ← parseDict (← field j "data")
   return Json.mkObj [("solutions", listJ solutionJ (matchAll rules data))]
 
+def opImpute (j : Json) : R Json := do
+  let rules ← rulesOf j
+  let data ← parseDict (← field j "data")
+  return Json.mkObj [("tokens", optJ strListJ (imputeTokens rules data))]
+
 def opConstraint (j : Json) : R Json := do
   let e : Entry := ⟨str (← strF j "reactants"), str (← strF j "products"),
     (optF j "added").bind (fun v => v.getStr?.toOption.map str)⟩
@@ -110,6 +115,7 @@ def dispatch? (op : String) (j : Json) : Option (R Json) :=
   | "carbonLabel" => some (opCarbonLabel j)
   | "tables" => some (opTables j)
   | "match" => some (opMatch j)
+  | "impute" => some (opImpute j)
   | "constraint" => some (opConstraint j)
   | "rbRow" => some (opRbRow j)
   | "str" => some (opStr j)
